@@ -633,6 +633,13 @@ def compare(machine, max_nodes=4000):
                     cls = ("input-dropped", rs)
                     diffs.setdefault(cls, {"class": cls[0], "ref_state": rs, "witness": word + "".join(left), "detail": "the loop stops with %r unread and returns Ok" % "".join(left)})
                     continue
+                at_eof = EOF in t["consumed"] or EOF in t["pending"] or EOF in t.get("choices", []) or EOF in pending
+                if t["end"] == "err" and not at_eof:
+                    # an error returned before the end of the input: whatever follows is never looked at, although the
+                    # reference accepts e.g. the continuation that closes an open comment
+                    cls = ("verdict-early", rs)
+                    diffs.setdefault(cls, {"class": "verdict", "ref_state": rs, "witness": word + "".join(left), "detail": "stripper returns ERR after reading %r, before the end of the input; the reference accepts %r" % (word + "".join(left), word + "".join(left) + ("*/" if rs in ("BLOCK", "STAR") else ""))})
+                    continue
                 rv, ro = ref_eof(rs)
                 rfull += ro
                 if left:
